@@ -81,10 +81,10 @@ func (r *loopRec) CAS(ctx context.Context, key string, f func(in interface{}) (o
 		r.gen.calls = r.gen.calls[:0]
 		t0 := time.Now().Unix()
 		inEnc := w.enc(in)
-		prevRO := int64(0)
+		prevRO, prevFlag := int64(0), false
 		if in != nil {
 			if pi, ok := in.(*ring.Desc).Ingesters[r.id]; ok {
-				prevRO = pi.ReadOnlyUpdatedTimestamp
+				prevRO, prevFlag = pi.ReadOnlyUpdatedTimestamp, pi.ReadOnly
 			}
 		}
 		out, retry, err := f(in)
@@ -103,7 +103,7 @@ func (r *loopRec) CAS(ctx context.Context, key string, f func(in interface{}) (o
 			if i, ok := out.(*ring.Desc).Ingesters[r.id]; ok {
 				// ChangeReadOnlyState takes its time.Now() before the CAS starts: a changed read-only timestamp that is
 				// not the heartbeat second means a second boundary in between (`now` would be ambiguous): retry the case
-				if i.ReadOnlyUpdatedTimestamp != prevRO && i.ReadOnlyUpdatedTimestamp != 0 && i.ReadOnlyUpdatedTimestamp != i.Timestamp {
+				if (i.ReadOnlyUpdatedTimestamp != prevRO || i.ReadOnly != prevFlag) && i.ReadOnlyUpdatedTimestamp != 0 && i.ReadOnlyUpdatedTimestamp != i.Timestamp {
 					w.bad = true
 				}
 			}
